@@ -8,6 +8,7 @@ import Axelar.Model.Trace
 import Axelar.Model.Gateway
 import Axelar.Model.GasService
 import Axelar.Model.TokenManager
+import Axelar.Model.Governance
 namespace Axelar
 
 structure Acct where
@@ -24,6 +25,7 @@ def esdtSystemSc : Bytes :=
 /-- what the callback of a pending asynchronous call needs (the closure the real code stores) -/
 inductive PendKind
   | tmIssue (tm : Bytes)
+  | govDispatch (gov : Bytes) (d : Governance.Dispatch)
   deriving Repr, DecidableEq
 
 structure Pending where
@@ -40,6 +42,7 @@ structure World where
   owner : Bytes → Bytes := fun _ => []
   gw : Gateway.State := Gateway.State.empty
   gs : GasService.State := {}
+  gov : Governance.State := {}
   tms : Bytes → TokenManager.State := fun _ => {}
   /-- ESDT local roles (protocol level): may `addr` mint / burn `token` -/
   mintRole : Bytes × Bytes → Bool := fun _ => false
@@ -136,6 +139,25 @@ def tmFinish (w : World) (dst : Bytes) (out : TokenManager.Out) : CallRes :=
         [ic.name, ic.ticker, strBytes "FNG", Codec.encNat ic.decimals] (.tmIssue dst)
       some (w'', out.results, stamp dst out.events, [d])
 
+/-- gas the harness gives every top-level transaction -/
+def txGas : Nat := 100000000000
+
+def asciiString (b : Bytes) : String := String.ofList (b.map fun c => Char.ofNat c.toNat)
+
+def govCtx (w : World) (src dst : Bytes) (egld : Nat) (esdt : List (Bytes × Nat × Nat)) : Governance.Ctx :=
+  ⟨src, dst, w.now, egld, esdt, txGas⟩
+
+/-- finish a governance call: commit, apply sends, register the dispatch promise -/
+def govFinish (w : World) (dst : Bytes) (out : Governance.Out) (pre : List Event) : CallRes :=
+  match applySends { w with gov := out.st } dst out.sends with
+  | none => none
+  | some w' =>
+    match out.dispatch with
+    | none => some (w', out.results, pre ++ stamp dst out.events, [])
+    | some d =>
+      let (w'', pd) := addPending w' dst d.target (asciiString d.endpoint) d.value [] d.args (.govDispatch dst d)
+      some (w'', out.results, pre ++ stamp dst out.events, [pd])
+
 /-- one call to a deployed contract (payments already moved); `none` = failure -/
 def callContract (C : Crypto) (w : World) (src dst : Bytes) (func : String) (egld : Nat)
     (esdt : List (Bytes × Nat × Nat)) (args : List Bytes) : CallRes :=
@@ -157,6 +179,21 @@ def callContract (C : Crypto) (w : World) (src dst : Bytes) (func : String) (egl
     match TokenManager.call (w.tms dst) (tmCtx w src dst egld esdt) func args with
     | .ok out => tmFinish w dst out
     | .error _ => none
+  | some .governance =>
+    if func == "execute" then
+      if egld ≠ 0 || !esdt.isEmpty then none else
+      match args with
+      | [chain, id, srcAddr, payload] =>
+        if w.kind w.gov.gateway != some .gateway then none else
+        match Governance.execute C w.gov w.gw (govCtx w src dst egld esdt) chain id srcAddr payload with
+        | .ok (gov', gw', gwEvs, evs) =>
+          some ({ w with gov := gov', gw := gw' }, [], stamp w.gov.gateway gwEvs ++ stamp dst evs, [])
+        | .error _ => none
+      | _ => none
+    else
+      match Governance.call C w.gov (govCtx w src dst egld esdt) func args with
+      | .ok out => govFinish w dst out []
+      | .error _ => none
   | _ => none
 
 /-- a user transaction: move the payment, run the endpoint, commit or roll back -/
@@ -199,6 +236,12 @@ def deploy (C : Crypto) (w : World) (kindName : String) (ownerAddr addr : Bytes)
       ({ w with tms := upd w.tms addr st, kind := upd w.kind addr (some .tokenManager),
                 owner := upd w.owner addr ownerAddr },
        .ok [] (stamp addr evs) [])
+    | .error _ => (w, .fail)
+  | "governance" =>
+    match Governance.initCall args with
+    | .ok st =>
+      ({ w with gov := st, kind := upd w.kind addr (some .governance), owner := upd w.owner addr ownerAddr },
+       .ok [] [] [])
     | .error _ => (w, .fail)
   | _ => (w, .fail)
 
@@ -260,6 +303,11 @@ def callback (C : Crypto) (w : World) (id : Nat) : World × Outcome :=
           match tmFinish w0 tm out with
           | some (w1, rs, evs, pd) => (w1, .ok rs evs pd)
           | none => (w0, .fail)
+      | .govDispatch gov d =>
+        let out := Governance.callback w0.gov d okFlag vals
+        match govFinish w0 gov out [] with
+        | some (w1, rs, evs, pd) => (w1, .ok rs evs pd)
+        | none => (w0, .fail)
 
 end World
 end Axelar
